@@ -42,10 +42,32 @@ class C07(Prop):
                 vals.add((m - r.getrandbits(len_ - 1) - 1) % m if len_ > 1 else 0)
         return sorted(v % m for v in vals)
 
+    def seqs(self, ctx, r):
+        """one Parser / one Assembler used for several fields in turn: narrow field(s), a wide one (every width 33..64),
+        then more; and random mixes (state inside a reader or writer -- look-ahead, cached bits -- shows only so)"""
+        for off in (0, 1, 3, 7, 8, 13):
+            for wide in range(33, 65):
+                for pre in ([], [2], [6], [1, 5], [8, 3]):
+                    ws = pre + [wide] + [r.choice([1, 8, 13, 32]), r.choice([5, 64])]
+                    kinds = [r.choice("uis") for _ in ws]
+                    nbytes = (off + sum(ws) + 7) // 8 + r.choice([0, 0, 1])
+                    buf = rand_bytes(r, nbytes)
+                    yield ("PARSESEQ %d %s %s" % (off, ",".join("%s:%d" % kw for kw in zip(kinds, ws)), hx(buf)), "parse-sequence", True)
+                    vals = [r.getrandbits(64) for _ in ws]
+                    yield ("PUTSEQ %d %s %s" % (off, hx(rand_bytes(r, nbytes)), ",".join("%s:%d:%d" % t for t in zip(kinds, ws, vals))), "put-sequence", True)
+        for _ in range(4000 if ctx.tier == "thorough" else 1500):
+            off = r.randrange(0, 24)
+            ws = [r.choice([1, 2, 3, 7, 8, 9, 16, 31, 32, 33, 56, 57, 58, 63, 64, r.randrange(1, 65)]) for _ in range(r.randrange(2, 9))]
+            kinds = [r.choice("uis") for _ in ws]
+            nbytes = max(0, (off + sum(ws) + 7) // 8 - r.choice([0, 0, 0, 1, 3]))
+            yield ("PARSESEQ %d %s %s" % (off, ",".join("%s:%d" % kw for kw in zip(kinds, ws)), hx(rand_bytes(r, nbytes))), "parse-sequence-random", True)
+            yield ("PUTSEQ %d %s %s" % (off, hx(rand_bytes(r, nbytes)), ",".join("%s:%d:%d" % (k, w, r.getrandbits(64)) for k, w in zip(kinds, ws))), "put-sequence-random", True)
+
     def gen(self, ctx):
         r = ctx.rng("gen")
         thorough = ctx.tier == "thorough"
         ex = 12 if thorough else 6
+        yield from self.seqs(ctx, ctx.rng("seq"))
         for kind in ("U", "I", "SM"):
             for w in (8, 16, 32, 64):
                 for len_ in range(1, w + 1):
